@@ -337,7 +337,7 @@ def shard_cliffs(ctx, k, payload):
     def body(data):
         forms = data.draw(st.sampled_from([['1040'], ['1040', 'nc_d-400'], ['1040', 'nc_d-400']]))
         p = data.draw(scenario.personas(forms=forms))
-        p['n_w2'] = max(p['n_w2'], 1)
+        p['n_w2'] = 1            # one W-2 holds all the wages, so the sweep can move the AGI over their whole range
         if data.draw(st.integers(0, 5)) == 0:
             p.update(big_dividends=True, n_div=1, n_int=0, wage_level='low', n_w2=1, deps=[], s199a=False, itemize=False)
         elif data.draw(st.booleans()):
